@@ -41,6 +41,28 @@ let () =
         if obs = "PANIC" then (if s = K.Z0 then "ok" else "FAIL:panic")
         else if K.is_partition_b s e iv (z_of_int last) (parse_periods obs) then "ok" else "FAIL:is_partition_b" in
       (model, spec)));
+  (* input: "<s1> <e1> <s2> <e2> <iv> <last>" ("-" = the zero time)  observed: "<cs>..<ce> | <periods>|PANIC|NOSTART" *)
+  register "C11.clip" (fun inp obs ->
+    Scanf.sscanf inp "%s %s %s %s %s %d" (fun s1 e1 s2 e2 iv last ->
+      let z s = if s = "-" then K.Z0 else parse_date s in
+      let w = { K.p_start = z s1; K.p_end = z e1 } and j = { K.p_start = z s2; K.p_end = z e2 } in
+      let part = Hashtbl.find ops "C11.part" in
+      let c = K.clip w j in
+      let pstr p = fmt_date p.K.p_start ^ ".." ^ fmt_date p.K.p_end in
+      let head = pstr c in
+      match Str.bounded_split_delim (Str.regexp_string " | ") obs 2 with
+      | [ohead; orest] ->
+        let (mrest, vrest) =
+          if c.K.p_start = K.Z0 then ("NOSTART", if orest = "NOSTART" then "ok" else "FAIL:no-start-date-not-reported")
+          else part (Printf.sprintf "%s %s %s %d" (fmt_date c.K.p_start) (fmt_date c.K.p_end) iv last) orest in
+        (* the partition is judged against the INTERSECTION computed by the spec, not against the clipped period
+           the implementation printed *)
+        let oc = (match parse_periods ohead with [p] -> Some p | _ -> None) in
+        let vclip = (match oc with
+          | Some p -> if K.clip_ok_b w j p then "ok" else "FAIL:clipped window " ^ ohead ^ " is not the intersection of the requested period and the journal's period"
+          | None -> "FAIL:unreadable") in
+        (head ^ " | " ^ mrest, if vclip <> "ok" then vclip else vrest)
+      | _ -> (head, "FAIL:unreadable")));
   (* input: "<s> <e> <iv> <last1,last2,..>"  observed: the results of the calls in that order, joined by " / ":
      each call is judged on its own (the model is a function: no call depends on an earlier one) *)
   register "C11.seq" (fun inp obs ->
